@@ -52,8 +52,25 @@ def pr(ty):
     return PRINTER[ty.kind]
 
 
+class EB(bytes):
+    """an empty but non-nil byte slice (b"" stands for the nil slice)"""
+
+
+NEGZERO = -0.0
+
+
+def is_negzero(v):
+    import math
+    return isinstance(v, float) and v == 0 and math.copysign(1.0, v) < 0
+
+
 def rnd(rng, ty):
     k = ty.kind
+    # zero-like values that a content-level comparison does not tell from the zero value: an empty non-nil slice, -0.0
+    if k == "bytes" and rng.random() < 0.12:
+        return EB()
+    if k == "float" and rng.random() < 0.1:
+        return NEGZERO
     if k == "int":
         return rng.randrange(1, 120) if ty.name == "int8" else rng.randrange(1, 1000)
     if k == "str":
@@ -83,8 +100,10 @@ def tok(ty, v):
     if k == "str":
         return '"%s"' % v
     if k == "bytes":
-        return "x" + v.hex()
+        return "xe" if isinstance(v, EB) else "x" + v.hex()
     if k == "float":
+        if is_negzero(v):
+            return "negzero"
         return str(int(v)) if v == int(v) else repr(v)
     if k == "bool":
         return "true" if v else "false"
@@ -100,9 +119,9 @@ def golit(ty, v):
     elif k == "str":
         s = '"%s"' % v
     elif k == "bytes":
-        s = "[]byte{" + ", ".join(str(b) for b in v) + "}" if v else "[]byte(nil)"
+        s = "[]byte{}" if isinstance(v, EB) else ("[]byte{" + ", ".join(str(b) for b in v) + "}" if v else "[]byte(nil)")
     elif k == "float":
-        s = repr(float(v))
+        s = "math.Copysign(0, -1)" if is_negzero(v) else repr(float(v))
     else:
         s = "true" if v else "false"
     return "%s(%s)" % (ty.name, s)
@@ -638,7 +657,8 @@ class Gen:
                     break
             if not distinct:
                 continue
-            s0, t0 = rnd(rng, S), rnd(rng, T)
+            # a fresh (zero) target is what a caller usually hands to Forward
+            s0, t0 = rnd(rng, S), (zero(T) if rng.random() < 0.3 else rnd(rng, T))
             s1 = zero(S) if rng.random() < 0.4 else rnd(rng, S)
             go = ["s := %s" % golit(S, s0), "t := %s" % golit(T, t0), "s1 := %s" % golit(S, s1)]
             for i, (a, b, oa, ob) in enumerate(distinct):
@@ -811,12 +831,14 @@ PREAMBLE = """//go:build verif
 package main
 
 import (
+	"math"
 	"strings"
 
 	"github.com/fogfish/golem/optics"
 )
 
 var _ = strings.Join
+var _ = math.Copysign
 var _ optics.Lens[int, int]
 
 type M1 map[string]int
